@@ -105,6 +105,16 @@ def solve_precise(assumptions, goal, want_model=True, z3_ms=None, use_cvc5=True)
     if r == z3.unsat:
         return {"status": "proved", "backend": "z3-" + z3.get_version_string(), "seconds": dt}
     if r == z3.sat:
+        if os.environ.get("PYVC_MODEL"):
+            import sys
+
+            m = s.model()
+            print("MODEL", file=sys.stderr)
+            for d in m.decls():
+                if d.arity() == 0:
+                    print("  ", d.name(), "=", str(m[d])[:120], file=sys.stderr)
+                else:
+                    print("  ", d.name(), "=", str(m[d])[:400].replace("\n", " "), file=sys.stderr)
         return {"status": "refuted", "backend": "z3-" + z3.get_version_string(), "seconds": dt, "model": s.model()}
     reason = s.reason_unknown()
     from .core import _has_quantifier
